@@ -403,6 +403,62 @@ def batch_api_table(ctx):
                    pytato_rejects=rejected, numpy_rejects=np_rejects, graph_checked=nchecked, executed=len(jobs), executor_unsupported=unsupported)
 
 
+def batch_loopy_calls(ctx):
+    """hand-written loopy kernels called several times: callee kernels that share a NAME but differ, in every order
+    (sequences over {K1, K2, K3} of length <= 4): code generation succeeds and every call computes its own kernel"""
+    import itertools
+    import loopy as lp
+    import pytato as pt
+    from pytato.loopy import call_loopy
+    from pytato.target.loopy import LoopyPyOpenCLTarget
+    tgt = LoopyPyOpenCLTarget().get_loopy_target()
+
+    def mk(f, name="loopy_kernel"):
+        return lp.make_kernel("{[i]: 0<=i<4}", f"out[i] = {f}*a[i] + {f}",
+                              [lp.GlobalArg("a", dtype=np.float64, shape=(4,)),
+                               lp.GlobalArg("out", dtype=np.float64, shape=(4,), is_input=False)],
+                              name=name, lang_version=(2018, 2), target=tgt)
+    K = {1: mk(2), 2: mk(3), 3: mk(5)}
+    f = {1: 2.0, 2: 3.0, 3: 5.0}
+    xv = np.array([1.0, -2.0, 0.5, 4.0])
+    jobs, meta = [], []
+    for n in (2, 3, 4):
+        for seq in itertools.product((1, 2, 3), repeat=n):
+            if len(set(seq)) < 2 or (not ctx.thorough and n == 4 and hash(seq) % 3):
+                continue
+            x = pt.make_placeholder("x", (4,), np.float64)
+            outs = {f"o{j}": call_loopy(K[k], {"a": x + j}, "loopy_kernel")["out"] * 2 for j, k in enumerate(seq)}
+            jobs.append(cexec.Job(tag=f"lc{seq}", expr=pt.make_dict_of_named_arrays(outs), runs=[{"x": xv}], prep=_prep_dedup))
+            meta.append(seq)
+    res = cexec.run_jobs(ctx, jobs)
+    dis = executed = 0
+    unsupported: dict[str, int] = {}
+    for seq, r in zip(meta, res):
+        if r.error:
+            if str(r.stage).startswith("c-"):
+                k = f"{r.stage}:{r.error_class}"
+                unsupported[k] = unsupported.get(k, 0) + 1
+                continue
+            dis += 1
+            ctx.violation(f"loopy-calls:{r.stage}:{r.error_class}:{_short(r.error)}",
+                          f"calls of the kernels {seq} (all named 'loopy_kernel'): {r.stage} failed: {r.error[:300]}",
+                          {"sequence": list(seq), "error": r.error})
+            continue
+        executed += 1
+        for j, k in enumerate(seq):
+            exp = (f[k] * (xv + j) + f[k]) * 2
+            got = r.outputs[0].get(f"o{j}")
+            if got is None or not close(got, exp):
+                dis += 1
+                ctx.violation("loopy-calls:value-mismatch",
+                              f"calls of the kernels {seq}: call {j} (kernel K{k}) returns "
+                              f"{None if got is None else np.asarray(got).tolist()}, expected {exp.tolist()}",
+                              {"sequence": list(seq), "call": j})
+                break
+    ctx.note_batch("loopy-calls-with-colliding-callee-names", len(jobs), dis, exhaustive=ctx.thorough,
+                   executed=executed, executor_unsupported=unsupported)
+
+
 def run(ctx: common.Ctx):
     ctx.assumptions += [
         "loopy's pipeline, its C target, gcc and libm execute the generated kernel (OpenCL absent); executed, not verified",
@@ -469,6 +525,7 @@ def run(ctx: common.Ctx):
     batch_special_values(ctx)
     batch_special_value_table(ctx)
     batch_api_table(ctx)
+    batch_loopy_calls(ctx)
     ctx.broken = sorted(set(ctx.broken))[:50]
 
 
